@@ -74,6 +74,9 @@ func typeOf(e sx.Sexp) px.Type {
 		case "undef":
 			return types.DefaultUndefType()
 		}
+		if t, ok := kindTypeOf(e); ok {
+			return t
+		}
 		panic(fmt.Errorf("bad type %s", e))
 	}
 	a := e.Args()
@@ -109,6 +112,9 @@ func typeOf(e sx.Sexp) px.Type {
 		return types.NewOptionalType(typeOf(a[0]))
 	case "typ":
 		return types.NewTypeType(typeOf(a[0]))
+	}
+	if t, ok := kindTypeOf(e); ok {
+		return t
 	}
 	panic(fmt.Errorf("bad type %s", e))
 }
@@ -180,6 +186,9 @@ func valOf(e sx.Sexp) px.Value {
 // ---- printing values back (canonical, the syntax above) -------------------------------------------------------
 
 func typeStr(t px.Type) string {
+	if s, ok := kindTypeStr(t); ok {
+		return s
+	}
 	switch t := t.(type) {
 	case *types.IntegerType:
 		return fmt.Sprintf("(int %d %d)", t.Min(), t.Max())
@@ -563,6 +572,8 @@ func canonType(e sx.Sexp) sx.Sexp {
 		if len(xs) == 2 {
 			return xs[1]
 		}
+		from = 1
+	case "pat":
 		from = 1
 	case "enum":
 		from = 2
@@ -1052,6 +1063,7 @@ var typeExprs = []string{
 	"Callable[0,0]", "Runtime", "Runtime['go','x']", "Runtime['go','y']", "Init", "Init[String]", "Like", "TypeReference['Foo']", "TypeReference['Bar']",
 	"Object", "Object[{name=>'A',attributes=>{a=>Integer}}]", "Object[{name=>'A',attributes=>{a=>String}}]", "Object[{name=>'B',attributes=>{a=>Integer}}]",
 	"TypeSet", "Deferred",
+	"SemVer['1.x']", "SemVer['2.x']", "SemVer['>=1.0.0 <2.0.0']", "SemVer['1.2.3']",
 }
 
 // ---- generators ------------------------------------------------------------------------------------------------
@@ -1167,6 +1179,9 @@ func randType(r *rand.Rand, depth int) string {
 			his = maxS
 		}
 		return los + " " + his
+	}
+	if r.Intn(4) == 0 {
+		return randKindType(r, depth)
 	}
 	if depth <= 0 || r.Intn(3) == 0 {
 		switch r.Intn(7) {
@@ -1574,14 +1589,27 @@ func equalType(r *rand.Rand, t sx.Sexp) sx.Sexp {
 		return sx.T("tup", append([]sx.Sexp{sx.L(ts...)}, a[1:]...)...)
 	case "arr":
 		return sx.T("arr", equalType(r, a[0]), a[1], a[2])
-	case "opt", "typ":
+	case "opt", "typ", "notundef", "sensitive", "iterable", "iterator":
 		return sx.T(t.Tag(), equalType(r, a[0]))
+	case "pat":
+		xs := append([]sx.Sexp{}, a...)
+		if r.Intn(2) == 0 {
+			r.Shuffle(len(xs), func(i, j int) { xs[i], xs[j] = xs[j], xs[i] })
+		}
+		return sx.T("pat", xs...)
+	case "strs":
+		if a[0].MustInt() <= 0 && r.Intn(2) == 0 {
+			return sx.T("strs", sx.Int(-a[0].MustInt()-1), a[1]) // a negative lower bound is 0 ... only when it was 0
+		}
 	}
 	return t
 }
 
 func mutType(r *rand.Rand, t sx.Sexp) sx.Sexp {
 	a := t.Args()
+	if m, ok := mutKindType(r, t); ok {
+		return m
+	}
 	switch t.Tag() {
 	case "var", "enum":
 		from := 0
@@ -1928,6 +1956,26 @@ func gen(g *core.G) {
 	for i := 0; i < 4000*g.Scale; i++ {
 		a, b, cc := typeExprs[r.Intn(len(typeExprs))], typeExprs[r.Intn(len(typeExprs))], typeExprs[r.Intn(len(typeExprs))]
 		g.Emit("@teq3 " + sx.Str(a).Atom + " " + sx.Str(b).Atom + " " + sx.Str(cc).Atom)
+	}
+	// every ordered pair of the type values of both rounds (eq, unique, get), and triples at random
+	tu := typeUniverse()
+	for _, x := range tu {
+		g.Emit("key " + x.String())
+		for _, y := range tu {
+			g.Emit("eq " + x.String() + " " + y.String())
+			g.Emit("unique " + av(x, y, x).String())
+			g.Emit("get " + hv(x, iv(1)).String() + " " + y.String())
+		}
+		if s, ok := keyImage(x); ok {
+			g.Emit("eq " + s.String() + " " + x.String())
+			g.Emit("eq " + av(s).String() + " " + av(x).String())
+			g.Emit("get " + hv(x, iv(1)).String() + " " + s.String())
+			// a String['v'] whose value is the key of a type, wrapped (the parameter of Optional['v'] is the string v)
+			g.Emit("eq " + tv("(opt (strv "+s.Args()[0].String()+"))").String() + " " + tv("(opt "+x.Args()[0].String()+")").String())
+		}
+	}
+	for i := 0; i < 4000*g.Scale; i++ {
+		g.Emit("eq3 " + tu[r.Intn(len(tu))].String() + " " + tu[r.Intn(len(tu))].String() + " " + tu[r.Intn(len(tu))].String())
 	}
 	// the kinds brought inside the model in the extension round (URI, SemVer, SemVerRange, TypedName, Deferred, Parameter):
 	// every ordered pair over their universe, bare, as array elements and as hash keys; crossed with a core of the old kinds;
